@@ -12,6 +12,7 @@ QUICK_TIMEOUT_MS = int(os.environ.get("PYVC_TIMEOUT_MS", "30000"))
 
 
 EXTRA_REFUTERS: list = []
+EXTRA_PROVERS: list = []      # see check_vc: consulted only when z3 answers `unknown`; a True answer must come from an `unsat`
 # pack-registered fn(pc, goal) -> bool: True when a `sat` answer of the unbounded VC cannot be trusted as a counter-model
 # (the VC mentions a spec function that the pack keeps uninterpreted for proofs); the VC is then handed to the
 # bounded refuters like an `unknown` one.  Added for C04 (seq_max); proofs (`unsat`) are unaffected.
@@ -65,6 +66,13 @@ def check_vc(pc, goal, timeout_ms=None, want_model=True, use_cvc5=True) -> VCRes
     if r == z3.sat and not untrusted:
         return VCResult("refuted", "z3", dt, model=s.model() if want_model else None)
     reason = s.reason_unknown() if r != z3.sat else "sat with an uninterpreted spec function (not a counter-model by itself)"
+    if r == z3.unknown or (r == z3.sat and untrusted):
+        for prover in EXTRA_PROVERS:    # pack-registered second attempts (other seeds / tactics): fn(pc, goal, timeout_ms) -> bool (valid)
+            try:
+                if prover(pc, goal, timeout_ms):
+                    return VCResult("proved", "z3-retry", time.time() - t0)
+            except z3.Z3Exception:
+                pass
     try:
         w = None if untrusted else random_refute(pc, goal)     # (a VC whose models are declared untrusted is not refuted by instantiation either)
     except z3.Z3Exception:
